@@ -24,7 +24,7 @@ import numpy as np
 from .. import core, tlaval
 
 SEEDS = ('root', 'seed', 'dseed', 'aseed')
-FINDING_BY_NOTE = (('brace', 'D-X08-3'), ('semicolon', 'D-X08-2'), ('charname', 'D-X08-4'))
+FINDING_BY_NOTE = (('brace', 'D-X08-3'), ('semicolon', 'D-X08-2'), ('charname', 'D-X08-4'), ('emptyauto', 'D-X08-5'))
 MAX_LISTED = 30
 
 
@@ -393,9 +393,14 @@ def acc_why(e, o):
     return ''
 
 
-def finding_of_notes(notes):
+# which accessors a named deviation can explain (a lost or extended member list explains anything)
+EXPLAINS = {'charname': ('isarray(', 'array_length(', 'char_length(', 'dtype(', 'object could not be read'),
+            'emptyauto': ('dtype(', 'object could not be read')}
+
+
+def finding_of_notes(notes, why):
     for key, fid in FINDING_BY_NOTE:
-        if notes.get(key):
+        if notes.get(key) and (key not in EXPLAINS or why.startswith(EXPLAINS[key])):
             return fid
     return None
 
@@ -718,7 +723,7 @@ def check_state(ctx, st, n):
         why = acc_why(exp, obs)
         if why:
             report(ctx, fam, '%s (read by %s, raw=%s); text %r' % (why, obs['way'], obs['raw'], c['text'][:600]),
-                   {'call': c, 'rot': n, 'expected': exp, 'observed': obs}, finding_of_notes(exp['notes']))
+                   {'call': c, 'rot': n, 'expected': exp, 'observed': obs}, finding_of_notes(exp['notes'], why))
         return 'judged', obs
     if fam == 'conv':
         obs = run_conv(ctx, c['base'], c['isarray'], c['value'])
@@ -923,7 +928,7 @@ def run(ctx):
         why = bad[k]
         m = re.match(r'(D-X08-\d+): ', why)
         report(ctx, 'recorded ' + rec['fn'], 'recorded call rejected by Trace_YannyParts (%s): %s' % (why, describe_record(rec)[:700]),
-               {'record': strip_private(rec), 'why': why}, m.group(1) if m else None)
+               {'record': strip_private(rec), 'why': why, 'rot': rec.get('rot', 0), 'raw': rec.get('raw')}, m.group(1) if m else None)
     ctx.sample({'recorded_call': describe_record(recs[0])})
     # ---- binding self-test: falsified observations must be rejected by the same judge -----------------
     fals = []
@@ -970,13 +975,13 @@ def replay(ctx, case):
             o = run_tc(''.join(rec['s']))
             rec = dict(rec, val=chars(o['val']), exc=o['exc'])
         elif fn == 'acc':
-            o = observe_acc(ctx, ''.join(rec['text']), 0, raw=True)
+            o = observe_acc(ctx, ''.join(rec['text']), case.get('rot', 0), raw=case.get('raw', True))
             rec = dict(rec, o=acc_record(o))
         elif fn == 'dtype_to_struct':
             c = {'cols': [dict(f, name=''.join(f['name'])) for f in rec['c']['cols']],
                  'enums': [{'col': ''.join(e['col']), 'ename': ''.join(e['ename']), 'labels': [''.join(x) for x in e['labels']]} for e in rec['c']['enums']],
                  'sname': ''.join(rec['c']['sname'])}
-            o = run_dts(c, 0)
+            o = run_dts(c, case.get('rot', 0))
             rec = dict(rec, o={'err': bool(o['err'] or o['exc']), 'key': chars(o['key']), 'names': [chars(x) for x in o['names']],
                                'struct': chars(o['struct']), 'enums': [chars(x) for x in o['enums']]})
         elif fn == 'convert':
